@@ -103,6 +103,11 @@ extern "C" void harness(void)
       point_vector(pm->pos, H_POS, H_NPOS); point_vector(pm->assoc, H_ASSOC, H_NASSOC); point_vector(pm->remap, H_REMAP, H_NREMAP);
       point_vector(pm->fixed, H_FIXED, H_NFIXED); point_vector(pm->arg_spec, H_ARGS, H_NFIXED); }
 #endif
+#if HASHED_SUB
+    { Port_Matcher *pm = SUB.impl; pm->m_enump = S_ENUMP;
+      point_vector(pm->pos, S_POS, S_NPOS); point_vector(pm->assoc, S_ASSOC, S_NASSOC); point_vector(pm->remap, S_REMAP, S_NREMAP);
+      point_vector(pm->fixed, S_FIXED, S_NFIXED); point_vector(pm->arg_spec, S_ARGS, S_NFIXED); }
+#endif
 #if WITH_DEFAULT
     ROOT.default_handler = [](const char *, RtData &) { ndefault++; };
 #endif
